@@ -5,8 +5,9 @@ Tie to /repo:
       ScalingOperator, MultiplyOperator, MatrixOperator, ZeroOperator, ConstantOperator,
       PowerOperator with integer exponent, InnerProductOperator, L2NormSquared) combined with
       every expression class of operator.py (incl. the optional temporaries of OperatorSum /
-      OperatorComp with domain != range) and Broadcast/Reduction/DiagonalOperator, built with
-      the real constructors; op(x), op.derivative(x)(d), is_linear/domain/range of both are
+      OperatorComp with domain != range), Broadcast/Reduction/Diagonal/ProductSpaceOperator and the
+      complex leaves ComplexModulusSquared, RealPart, ImagPart, ComplexEmbedding (cn(n) read as
+      the flat real space [re, im], "C = R^2"), built with the real constructors; op(x), op.derivative(x)(d), is_linear/domain/range of both are
       compared EXACTLY with the Lean model (Model/Deriv.lean through Drivers/C06.lean).  All
       data are small integers and a magnitude bound is tracked so that float64 is exact.
   (T) the (f, f') table of odl/ufunc_ops/ufunc_ops.py::derivative_factory is regenerated into
@@ -40,10 +41,14 @@ ASSUMPTIONS = ['model world: spaces rn(n) and (nested) product spaces of them, f
                'PowerOperator with integer exponent >= 1',
                'Frechet derivative of the polynomial world is stated algebraically: coefficient of eps '
                'in op(x + eps d) over the dual numbers; floating-point rounding is outside the model',
-               'operator classes without an executable model (NormOperator, DistOperator, ComplexModulus'
-               '(Squared), PointwiseNorm, ufunc operators evaluated at Float, finite differences, '
-               'ResizingOperator, functionals, ProductSpaceOperator) are checked by the central-difference '
-               'oracle on sampled inputs only',
+               'complex spaces: cn(n) is the flat real space [re, im]; only real scalars and no point-wise '
+               'products with complex vectors in the modelled trees (Impl.cwf)',
+               'operator classes without an executable model (NormOperator, DistOperator, ComplexModulus, '
+               'PointwiseNorm, ufunc operators (their derivative TABLE is extracted and proved; values are '
+               'not executed in the model), finite differences, ResizingOperator, functionals other than '
+               'L2NormSquared/InnerProduct) are checked by the central-difference oracle on sampled inputs '
+               'only; the analytic theorem C06.deriv_sound covers them as opaque leaves under the leaf '
+               'contract LeafOK (single space, dom = ran)',
                'exempt by the property statement: LinDeformFixedTempl/LinDeformFixedDisp (continuum '
                'derivative by design); NumericalGradient.derivative (a numerical estimate by design) is '
                'checked with a loose tolerance']
